@@ -133,6 +133,9 @@ def run(chk):
     universe = enumerate_universe()
     # quick: a sample of the enumerated universe; thorough: all of it
     asts += universe if tier != "quick" else chk.rng.sample(universe, 150)
+    from .common import replay_asts
+    if replay_asts(chk) is not None:
+        asts = replay_asts(chk)
     base = project_stream.run_projects(chk, asts, want_oracles=())
     dis = [{"stream": "project", "text": r["text"], "ast": r["ast"], "diffs": r["diffs"][:6]} for r in base if r["diffs"] and not r["skipped"]]
     found = []
